@@ -58,6 +58,19 @@ func failFuncs() map[string]jet.Func {
 			a.Panicf("failfn: %v", a.Get(0))
 			return reflect.Value{}
 		},
+		// a user function with a genuine bug: Go runtime errors are re-panicked by Execute by design
+		"rtpanicfn": func(a jet.Arguments) reflect.Value {
+			var m map[string]int
+			m["boom"] = 1
+			return reflect.Value{}
+		},
+		// a jet.Func that tolerates whatever it is handed (also an invalid piped value)
+		"passthru": func(a jet.Arguments) reflect.Value {
+			if a.NumOfArguments() > 0 {
+				return a.Get(0)
+			}
+			return reflect.Value{}
+		},
 	}
 }
 
